@@ -188,7 +188,8 @@ class Ctx:
         res: dict[str, tuple[bool, str]] = {}
 
         def one(p):
-            rc, out, dt = sh(["coqc", "-Q", COQ, "LV", "-Q", self.work, "Cases", p], timeout=timeout, cwd=self.work)
+            rc, out, dt = sh(f"ulimit -s unlimited 2>/dev/null || ulimit -s 4000000 2>/dev/null; exec coqc -Q {COQ} LV -Q {self.work} Cases {p}",
+                             timeout=timeout, cwd=self.work)
             return p, rc == 0, out
 
         with cf.ThreadPoolExecutor(max_workers=NPROC) as ex:
@@ -206,7 +207,8 @@ class Ctx:
         p = os.path.join(self.work, f"diag_{self.shard_seq:03d}.v")
         with open(p, "w") as f:
             f.write(text)
-        rc, out, _ = sh(["coqc", "-Q", COQ, "LV", "-Q", self.work, "Cases", p], timeout=timeout, cwd=self.work)
+        rc, out, _ = sh(f"ulimit -s unlimited 2>/dev/null || ulimit -s 4000000 2>/dev/null; exec coqc -Q {COQ} LV -Q {self.work} Cases {p}",
+                        timeout=timeout, cwd=self.work)
         return rc == 0, out
 
     # --- verdicts -------------------------------------------------------------------------------
